@@ -61,7 +61,7 @@ int snoopy_datasource_login (char * const resultBuf, size_t resultBufSize, __att
 {
     int          loginSizeMaxWithoutNull = SNOOPY_DATASOURCE_LOGIN_loginSizeMaxWithoutNull;
     int          loginSizeMaxWithNull    = SNOOPY_DATASOURCE_LOGIN_loginSizeMaxWithNull;
-    static char  login[SNOOPY_DATASOURCE_LOGIN_loginSizeMaxWithNull];
+    char         login[SNOOPY_DATASOURCE_LOGIN_loginSizeMaxWithNull];   // Not static: this gets called from multiple threads
     const char * loginptr = NULL;
 
     /*
